@@ -150,3 +150,34 @@ def native_exhaust(binary, harness, alphabets, timeout=900):
     return {'evaluated': int(m.group(1)), 'rejected': int(m.group(2)),
             'failures': [{'obligation': o, 'input': [int(x) for x in i.split(',') if x]} for o, i in fails],
             'time': dt}
+
+
+def expand_alpha(a):
+    if '-' in a:
+        lo, hi = a.split('-')
+        return list(range(int(lo), int(hi) + 1))
+    return [int(x) for x in a.split(',') if x.strip()]
+
+
+def native_exhaust_sharded(binary, harness, alphabets, shards=8, timeout=900):
+    """Same enumeration as native_exhaust, split over the values of the first position and run in parallel."""
+    from concurrent.futures import ThreadPoolExecutor
+    parts = alphabets.split(';')
+    first = expand_alpha(parts[0])
+    groups = [first[i::shards] for i in range(shards) if first[i::shards]]
+    if len(groups) <= 1:
+        return native_exhaust(binary, harness, alphabets, timeout=timeout)
+
+    def one(g):
+        return native_exhaust(binary, harness, ';'.join([','.join(str(x) for x in g)] + parts[1:]), timeout=timeout)
+    t0 = time.time()
+    with ThreadPoolExecutor(max_workers=len(groups)) as ex:
+        rs = list(ex.map(one, groups))
+    seen = set()
+    fails = []
+    for r in rs:
+        for f in r['failures']:
+            if f['obligation'] not in seen:
+                seen.add(f['obligation'])
+                fails.append(f)
+    return {'evaluated': sum(r['evaluated'] for r in rs), 'rejected': sum(r['rejected'] for r in rs), 'failures': fails, 'time': time.time() - t0}
